@@ -92,6 +92,9 @@ def biased_history(rng, al, length):
     ]
     for sh in rng.sample(shapes, rng.choice([1, 2, 2])):
         extra += sh
+    if rng.random() < 0.3:
+        # a serialisation round trip somewhere in the middle: the restored solver must carry on identically
+        extra.append({"op": "pickle", "s": 0})
     # splice the directed adds in at random places, keeping their order
     pos = sorted(rng.randrange(0, len(steps) + 1) for _ in extra)
     for off, (p, st) in enumerate(zip(pos, extra)):
